@@ -218,6 +218,30 @@ def sig_case(item):
             if mi == 2 or (mi == 0 and tier == "thorough"):
                 for (lab, s2) in flips(sig, tier):
                     expect(lab, verify(pub, s2, msg, salt=salt), False)
+    # digests of particular shapes (leading zero byte(s), top bit set, all
+    # but the last byte zero is not reachable): the truncation / conversion
+    # of the hash to an integer must agree with the independent verifier
+    if kind in ("dsa", "ecdsa", "pkcs1", "pss") and h:
+        shapes = {}
+        for i in range(200000):
+            m = b"digest-shape-%d" % i
+            dg = hashlib.new(h, m).digest()
+            for nm, ok in (("lead-00", dg[0] == 0),
+                           ("lead-0000", dg[:2] == b"\x00\x00"),
+                           ("lead-ff", dg[0] == 0xff),
+                           ("lead-01", dg[0] == 1),
+                           ("last-00", dg[-1] == 0)):
+                if ok and nm not in shapes:
+                    shapes[nm] = m
+            if len(shapes) == 5 or (i > 3000 and len(shapes) >= 4):
+                break
+        for nm, m in sorted(shapes.items()):
+            salt = hl if kind == "pss" else None
+            sig = bytes(sign(m, salt=salt))
+            expect("shape-%s-own-key" % nm, verify(pub, sig, m, salt=salt),
+                   True)
+            expect("shape-%s-openssl" % nm,
+                   ossl.verify(cred, kind, h, m, sig, saltlen=salt), True)
     ossl.close()
     return n, fails, sorted(outcomes, key=repr)
 
@@ -504,6 +528,12 @@ def forgery_case(item):
         tryv("s=q", encode_sequence(encode_integer(r), encode_integer(q)))
         tryv("r=r+q", encode_sequence(encode_integer(r + q),
                                       encode_integer(s)))
+        for rv in (0, 1, 2, q - 1, q, q + 1):
+            for sv in (0, 1, q - 1, q, q + 1):
+                tryv("r=%s,s=%s" % (
+                    rv if rv < 3 else "q%+d" % (rv - q),
+                    sv if sv < 3 else "q%+d" % (sv - q)),
+                    encode_sequence(encode_integer(rv), encode_integer(sv)))
         tryv("trailing", encode_sequence(encode_integer(r),
                                          encode_integer(s)) + b"\x00")
         tryv("trailing-in-seq", encode_sequence(encode_integer(r),
